@@ -207,10 +207,10 @@ class HookTransport(so.RecTransport):
         return True
 
 
-@obligation('S4', props=('C09', 'C05'), quick=[dict(chunks=3, event='none'), dict(chunks=3, event='disconnect'), dict(chunks=3, event='newer')],
-            thorough=[dict(chunks=c_, event=e) for c_ in (6, 8) for e in ('none', 'disconnect', 'newer')], stubs=_STUBS + ('snapshot images are blobs of symbolic length',),
+@obligation('S4', props=('C09', 'C05'), quick=[dict(chunks=3, event='none'), dict(chunks=3, event='disconnect'), dict(chunks=3, event='disconnect', lose=True), dict(chunks=3, event='newer')],
+            thorough=[dict(chunks=c_, event=e) for c_ in (6, 8) for e in ('none', 'disconnect', 'newer')] + [dict(chunks=6, event='disconnect', lose=True)], stubs=_STUBS + ('snapshot images are blobs of symbolic length',),
             bounds='image length 1..200000 and chunk size 1..70000 symbolic with at most `chunks` data chunks (chunk size larger than the image included); a disconnect or a newer completed snapshot after a symbolic number of sent chunks')
-def S4(inp, chunks, event):
+def S4(inp, chunks, event, lose=False):
     """chunked snapshot transfer: whatever the chunk size and wherever the transfer is interrupted (disconnect and restart,
     or a newer snapshot completing on the leader), the follower installs only an image equal to one complete leader image,
     never a mixture; afterwards the leader's nextIndex for that follower is that image's index + 1."""
@@ -260,7 +260,8 @@ def S4(inp, chunks, event):
     tr.hook_at, tr.hook = k, on_hook
     exc = None
     delivered = 0
-    for rnd in range(3):
+    fdelivered = 0
+    for rnd in range(6):
         _, exc = guard(getattr(lead, so.P + 'sendAppendEntries'))
         if exc is not None:
             break
@@ -273,9 +274,15 @@ def S4(inp, chunks, event):
                     break
         else:
             # the bytes sent before the disconnect were delivered, the rest was not; then the peer reconnects
-            for nd, m in msgs[:max(0, (k or 0) - (delivered - len(msgs)))]:
+            # lose=True: the chunk that was being sent when the link broke never arrives
+            for nd, m in msgs[:max(0, (k or 0) - (delivered - len(msgs)) - (1 if lose else 0))]:
                 _, exc = guard(getattr(fol, so.P + 'onMessageReceived'), Node('a'), m)
             getattr(lead, so.P + 'onNodeConnected')(b)
+        # the follower's answers travel back
+        for nd, m in ftr.sent[fdelivered:]:
+            if exc is None:
+                _, exc = guard(getattr(lead, so.P + 'onMessageReceived'), b, m)
+        fdelivered = len(ftr.sent)
         if exc is not None or installed:
             break
     cl = {'no_exception': exc is None}
